@@ -728,8 +728,10 @@ fn try_run_calculator(line: &str, capture: bool) -> Option<CommandResult> {
                 let mut cr = CommandResult::new();
                 if capture {
                     cr.stdout = result.clone();
-                } else {
-                    println!("{}", result);
+                } else if let Err(err) = writeln!(std::io::stdout(), "{}", result) {
+                    // a closed or full stdout is the line's failure, not the shell's
+                    println_stderr!("cicada: calculator: {}", err);
+                    cr.status = 1;
                 }
                 return Some(cr);
             }
